@@ -1,5 +1,7 @@
 import Proofs.BatchLemmas
 import Proofs.Holding
+import Proofs.ExecOnce
+import Proofs.Process
 /-
   C06 — At-most-once execution of an entry (replay protection).
 -/
@@ -16,6 +18,7 @@ theorem execution_marks_entry {P : Params} {h : Nat} {e : TxEntry} {rates avgs :
   cases hver : verdict P s h rates avgs e.txs with
   | apply =>
     rw [hver] at hr
+    obtain ⟨_, s0, _, hr⟩ := M.bind_ok hr
     obtain ⟨_, s1, hrec, hp⟩ := M.bind_ok hr
     simp only [M.pure_run] at hp
     injection hp with _ hs
@@ -103,6 +106,95 @@ example :
      | .fail _ _ => []) = [("e1", 9)] := by
   decide
 
+/-! ### at most once, along every chain and every process run
+
+`DB.execLog` is a history variable of the model: `applyTransactionBatch` appends the entry hash
+each time — and only when — it goes on to move balances (`execution_is_logged`,
+`no_execution_no_effect`). The theorems say no hash ever occurs twice in it. -/
+
+/-- an execution (the batch is applied: balances move) is logged -/
+theorem execution_is_logged {P : Params} {h : Nat} {e : TxEntry} {rates avgs : Option TMap} {s s' : DB}
+    (hr : applyBatch P h e rates avgs s = .ok .apply s') : s'.execLog = s.execLog ++ [e.hash] := by
+  unfold applyBatch at hr
+  rw [M.bind_run] at hr
+  simp only [M.get_run] at hr
+  cases hver : verdict P s h rates avgs e.txs with
+  | apply =>
+    rw [hver] at hr
+    simp only [M.bind_run, logExec, M.guarded] at hr
+    cases hrec : recordBatch P h e.hash rates avgs e.txs { s with execLog := s.execLog ++ [e.hash] } with
+    | fail f s2 => rw [hrec] at hr; cases hr
+    | ok u s2 =>
+      rw [hrec] at hr
+      simp only [M.pure_run] at hr
+      injection hr with _ hs
+      subst hs
+      exact ((recordBatch_step (primsOK_klgr P h) e.hash rates avgs e.txs).ok hrec).1
+  | reject c => rw [hver] at hr; simp only [M.pure_run] at hr; injection hr with hv _; cases hv
+  | dropped => rw [hver] at hr; simp only [M.pure_run] at hr; injection hr with hv _; cases hv
+  | failBlock f => rw [hver] at hr; simp only [M.throw_run] at hr; cases hr
+
+/-- every other outcome of `applyTransactionBatch` that lets the block go on changes nothing at all -/
+theorem no_execution_no_effect {P : Params} {h : Nat} {e : TxEntry} {rates avgs : Option TMap} {s s' : DB} {v : Verdict}
+    (hv : v ≠ .apply) (hr : applyBatch P h e rates avgs s = .ok v s') : s' = s := by
+  unfold applyBatch at hr
+  rw [M.bind_run] at hr
+  simp only [M.get_run] at hr
+  cases hver : verdict P s h rates avgs e.txs with
+  | apply =>
+    rw [hver] at hr
+    simp only [M.bind_run, logExec, M.guarded] at hr
+    cases hrec : recordBatch P h e.hash rates avgs e.txs { s with execLog := s.execLog ++ [e.hash] } with
+    | fail f s2 => rw [hrec] at hr; cases hr
+    | ok u s2 =>
+      rw [hrec] at hr
+      simp only [M.pure_run] at hr
+      injection hr with hv' _
+      exact absurd hv'.symm hv
+  | reject c => rw [hver] at hr; simp only [M.pure_run] at hr; injection hr with _ hs; exact hs.symm
+  | dropped => rw [hver] at hr; simp only [M.pure_run] at hr; injection hr with _ hs; exact hs.symm
+  | failBlock f => rw [hver] at hr; simp only [M.throw_run] at hr; cases hr
+
+/-- **At most once, every chain.** Whatever blocks the chain holds — entries repeated on the
+    transaction chain, the same entry held twice, an entry both held and arriving again, blocks
+    that fail and are retried — no entry hash is executed twice. -/
+theorem executed_at_most_once (P : Params) (chain : List Block) :
+    (runBlocks P (freshNode P) chain).db.execLog.Nodup :=
+  (runBlocks_execOnce P _ chain (execOnce_fresh P)).1
+
+theorem executed_at_most_once_count (P : Params) (chain : List Block) (x : Hash) :
+    (runBlocks P (freshNode P) chain).db.execLog.count x ≤ 1 :=
+  List.nodup_iff_count.1 (executed_at_most_once P chain) x
+
+/-- … and everything executed bears its mark at the end (so it stays unexecutable) -/
+theorem executed_is_marked (P : Params) (chain : List Block) (x : Hash)
+    (hx : x ∈ (runBlocks P (freshNode P) chain).db.execLog) :
+    (runBlocks P (freshNode P) chain).db.isReplay x = true :=
+  (runBlocks_execOnce P _ chain (execOnce_fresh P)).2 x hx
+
+/-- **At most once, every process run**: attempts, killed iterations and restarts in any order. -/
+theorem executed_at_most_once_process (P : Params) (ch : Nat → Block) (es : List Ev) :
+    (runEvs P ch (freshNode P) es).db.execLog.Nodup := by
+  suffices h : ∀ n : Node, ExecOnce n.db → ExecOnce (runEvs P ch n es).db from (h _ (execOnce_fresh P)).1
+  induction es with
+  | nil => intro n hi; exact hi
+  | cons e es ih =>
+    intro n hi
+    show ExecOnce (runEvs P ch (stepEv P ch n e) es).db
+    apply ih
+    cases e with
+    | attempt => exact applyBlock_execOnce P n _ hi
+    | aborted t => cases t <;> exact hi
+    | restart => exact execOnce_congr (s := n.db) rfl rfl hi
+
+/-- non-vacuity: the same conversion entry held twice is executed once (the log has one entry,
+    and the second visit writes nothing), evaluated by the kernel -/
+example :
+    (match applyHolding wP { wDB with holding := wDB.holding ++ wDB.holding } 9 [(2, 100000000), (3, 200000000)] [] 7 wDB with
+     | .ok _ s' => s'.execLog
+     | .fail _ _ => []) = ["e1"] := by
+  decide
+
 end Pegnet.C06
 
 #print axioms Pegnet.C06.execution_marks_entry
@@ -111,3 +203,9 @@ end Pegnet.C06
 #print axioms Pegnet.C06.repeated_holding_no_balance_change
 #print axioms Pegnet.C06.window_strictly_earlier
 #print axioms Pegnet.C06.held_batches_are_considered
+#print axioms Pegnet.C06.execution_is_logged
+#print axioms Pegnet.C06.no_execution_no_effect
+#print axioms Pegnet.C06.executed_at_most_once
+#print axioms Pegnet.C06.executed_at_most_once_count
+#print axioms Pegnet.C06.executed_is_marked
+#print axioms Pegnet.C06.executed_at_most_once_process
